@@ -182,6 +182,14 @@ func (g *ExecutionGraph) setupRetry() error {
 		dict[node.id] = node.data.State.Status
 		retry[node.id] = false
 	}
+	// A node recorded as running belongs to a run whose process died before
+	// it could record the outcome; it has to be executed again like a failed
+	// node, otherwise nothing ever runs it and the retry never ends.
+	for id, status := range dict {
+		if status == NodeStatusRunning {
+			dict[id] = NodeStatusError
+		}
+	}
 	var frontier []int
 	for _, node := range g.nodes {
 		if len(node.data.Step.Depends) == 0 {
